@@ -29,7 +29,14 @@ type Lemma struct {
 	Tier      string   `json:"tier,omitempty"`      // "" = both, "thorough" = thorough only
 	NoNative  bool     `json:"no_native,omitempty"` // harness uses substitutions: no native twin
 	Functions []string `json:"functions,omitempty"` // functions that must appear among those encoded
+	// ThoroughAsQuick: the deeper bounds of this lemma were never run clean on the
+	// unchanged tree within the build session, so the thorough tier runs it at its
+	// quick bounds (with the thorough tier's solver cap, second opinion and seeds).
+	ThoroughAsQuick bool `json:"thorough_as_quick,omitempty"`
 }
+
+// deep reports whether the lemma runs at its thorough bounds in this tier.
+func (l *Lemma) deep(tier string) bool { return tier == "thorough" && !l.ThoroughAsQuick }
 
 type LemmaFile struct {
 	Lemmas      []Lemma             `json:"lemmas"`
@@ -189,7 +196,7 @@ func runProperty(repo, verif, prop, tier, only string, seed uint64, nj int, skip
 			defer wg.Done()
 			sem <- struct{}{}
 			defer func() { <-sem }()
-			opt := RunOpts{CapMs: capMs, Wall: wall, Diff: tier == "thorough", Thorough: tier == "thorough", Shard: j.shard, Shards: j.shards}
+			opt := RunOpts{CapMs: capMs, Wall: wall, Diff: tier == "thorough", Thorough: j.l.deep(tier), Shard: j.shard, Shards: j.shards}
 			res := RunHarness(ld, j.l.Pkg, j.h, opt, stats)
 			if j.shards > 1 {
 				res.Shard = fmt.Sprintf("%d/%d", j.shard, j.shards)
@@ -217,10 +224,16 @@ func runProperty(repo, verif, prop, tier, only string, seed uint64, nj int, skip
 		byPkg := map[string][]*jobResult{}
 		for _, jr := range results {
 			if !jr.lemma.NoNative && (jr.res.Shard == "" || strings.HasPrefix(jr.res.Shard, "0/")) {
-				byPkg[jr.lemma.Pkg] = append(byPkg[jr.lemma.Pkg], jr)
+				k := jr.lemma.Pkg
+				if jr.lemma.deep(tier) {
+					k += "|deep"
+				}
+				byPkg[k] = append(byPkg[k], jr)
 			}
 		}
-		for pkg, jrs := range byPkg {
+		for key, jrs := range byPkg {
+			pkg := strings.TrimSuffix(key, "|deep")
+			deep := strings.HasSuffix(key, "|deep")
 			var hs []string
 			for _, jr := range jrs {
 				hs = append(hs, jr.res.Name)
@@ -229,7 +242,7 @@ func runProperty(repo, verif, prop, tier, only string, seed uint64, nj int, skip
 			for k := 0; k < nSeeds; k++ {
 				seeds = append(seeds, seed*1000+uint64(k))
 			}
-			natRuns, err := nat.runSeeds(pkg, hs, seeds)
+			natRuns, err := nat.runSeeds(pkg, hs, seeds, deep)
 			if err != nil {
 				engineMismatch = append(engineMismatch, fmt.Sprintf("native build/run failed for package %s: %v", pkg, err))
 				continue
@@ -241,7 +254,7 @@ func runProperty(repo, verif, prop, tier, only string, seed uint64, nj int, skip
 						jr.tvMismatch = append(jr.tvMismatch, fmt.Sprintf("seed %d: no native result", sd))
 						continue
 					}
-					ir := RunHarness(ld, pkg, jr.res.Name, RunOpts{CapMs: capMs, Wall: time.Minute, Concrete: true, Seed: sd, Thorough: tier == "thorough"}, nil)
+					ir := RunHarness(ld, pkg, jr.res.Name, RunOpts{CapMs: capMs, Wall: time.Minute, Concrete: true, Seed: sd, Thorough: deep}, nil)
 					jr.tvRuns++
 					tvTotal++
 					if d := compareRuns(ir, nr); d != "" {
@@ -277,7 +290,7 @@ func runProperty(repo, verif, prop, tier, only string, seed uint64, nj int, skip
 				x, _ := strconv.ParseUint(hx, 16, 64)
 				vals[k] = x
 			}
-			ir := RunHarness(ld, jr.lemma.Pkg, v.Harness, RunOpts{CapMs: capMs, Wall: time.Minute, Concrete: true, Values: vals, Thorough: tier == "thorough"}, nil)
+			ir := RunHarness(ld, jr.lemma.Pkg, v.Harness, RunOpts{CapMs: capMs, Wall: time.Minute, Concrete: true, Values: vals, Thorough: jr.lemma.deep(tier)}, nil)
 			interpOK := reproduces(ir, v)
 			rf["interpreter_concrete_replay"] = boolWord(interpOK)
 			nativeOK := false
@@ -285,7 +298,7 @@ func runProperty(repo, verif, prop, tier, only string, seed uint64, nj int, skip
 			if !jr.lemma.NoNative && !skipNative {
 				data, _ := json.MarshalIndent(rf, "", " ")
 				os.WriteFile(rp, data, 0o644)
-				nr, err := nat.runFile(jr.lemma.Pkg, v.Harness, rp)
+				nr, err := nat.runFile(jr.lemma.Pkg, v.Harness, rp, jr.lemma.deep(tier))
 				if err != nil {
 					nativeNote = "native replay failed to run: " + err.Error()
 				} else {
@@ -544,15 +557,20 @@ func (n *nativeSide) run(pkg string, env []string) ([]byte, error) {
 	return out, nil
 }
 
-func (n *nativeSide) runSeeds(pkg string, hs []string, seeds []uint64) (map[string]*nativeRun, error) {
+func thoroughVar(deep bool) string {
+	if deep {
+		return "VERIF_THOROUGH=1"
+	}
+	return "VERIF_THOROUGH=" // overrides the process environment: vThorough() is false
+}
+
+func (n *nativeSide) runSeeds(pkg string, hs []string, seeds []uint64, deep bool) (map[string]*nativeRun, error) {
 	var ss []string
 	for _, s := range seeds {
 		ss = append(ss, strconv.FormatUint(s, 10))
 	}
 	env := []string{"VREPLAY_HARNESS=" + strings.Join(hs, ","), "VREPLAY_SEEDS=" + strings.Join(ss, ",")}
-	if os.Getenv("VERIF_THOROUGH") != "" {
-		env = append(env, "VERIF_THOROUGH=1")
-	}
+	env = append(env, thoroughVar(deep))
 	out, err := n.run(pkg, env)
 	if err != nil {
 		return nil, err
@@ -560,8 +578,8 @@ func (n *nativeSide) runSeeds(pkg string, hs []string, seeds []uint64) (map[stri
 	return parseNative(out), nil
 }
 
-func (n *nativeSide) runFile(pkg, h, file string) (*nativeRun, error) {
-	out, err := n.run(pkg, []string{"VREPLAY_HARNESS=" + h, "VREPLAY_FILE=" + file})
+func (n *nativeSide) runFile(pkg, h, file string, deep bool) (*nativeRun, error) {
+	out, err := n.run(pkg, []string{"VREPLAY_HARNESS=" + h, "VREPLAY_FILE=" + file, thoroughVar(deep)})
 	if err != nil {
 		return nil, err
 	}
@@ -622,8 +640,10 @@ func writeEvidence(verif, prop, tier string, seed uint64, lf *LemmaFile, results
 			asserts = append(asserts, map[string]interface{}{"label": l, "checked_on_paths": a.Checked, "unsat": a.Unsat, "sat": a.Sat, "unknown": a.Unknown, "folded_to_true": a.Trivial})
 		}
 		bounds := jr.lemma.Bounds
-		if tier == "thorough" && jr.lemma.Thorough != "" {
+		if jr.lemma.deep(tier) && jr.lemma.Thorough != "" {
 			bounds = jr.lemma.Thorough
+		} else if tier == "thorough" && jr.lemma.ThoroughAsQuick {
+			bounds += " [thorough tier runs this lemma at its quick bounds: deeper bounds were not run clean on the unchanged tree within the build session]"
 		}
 		twin := "violated (good: end of harness reachable)"
 		if r.Vacuous {
